@@ -17,7 +17,7 @@ from sx.harness import Shape
 from .instr import isa, code, arg
 
 ID = 'C20'
-BUDGET_S = {'quick': 170, 'thorough': 1200}
+BUDGET_S = {'quick': 170, 'thorough': 3600}
 SHAPE_WALL_S = {'quick': 120, 'thorough': 400}
 SERIAL = False
 STUBS = ['none: the generators run unmodified on concrete ISA files; only the emitted patterns are translated to z3 regular expressions']
@@ -585,6 +585,6 @@ def shapes(tier, seed):
     import random
     S = [VocabShape(f'vocab:{k}', **v) for k, v in VOCABS.items()]
     rnd = random.Random(2000 + seed)
-    for i in range(12 if tier == 'quick' else 300):
+    for i in range(12 if tier == 'quick' else 2000):
         S.append(VocabShape(f'rnd:{seed}:{i}', **random_vocab(rnd)))
     return S
